@@ -1439,6 +1439,11 @@ impl ConnectivityChangeEvent {
     }
 }
 
+#[cfg(scylla_verif)]
+#[path = "connection_pool_verif.rs"]
+#[allow(missing_docs, unreachable_pub, unnameable_types)]
+pub(crate) mod verif;
+
 #[cfg(test)]
 mod tests {
     use super::super::connection::{
